@@ -205,20 +205,19 @@ class C18:
         r.run_cases(cases, chunksize=40)
         r.exhaustive = True
         r.stats.extra.update({"requests/" + k: v for k, v in total.items()})
-        if r.tier == "thorough":
-            self.generated(r)
-        hit = set()
-        # sites hit = keys of nontrivial; recompute from samples is lossy, so track via class histogram of keys
+        self.generated(r, 40 if r.tier == "quick" else 1500)
         allsites = sorted(set(site_table()[1]))
-        self.coverage_extra = {"static_allocation_sites_in_confuse_c": len(allsites)}
+        hit = [x for x in allsites if h64(x) in r.stats.nontrivial]
+        self.coverage_extra = {"static_allocation_sites_in_confuse_c": len(allsites), "sites_hit": hit,
+                               "never_reached": [x for x in allsites if x not in hit]}
 
-    def generated(self, r):
+    def generated(self, r, nworkloads):
         import random
         from c07 import PROP as C07P
         rnd = random.Random(r.seed)
         alpha = C07P.alphabet()
         cases = []
-        for w in range(400):
+        for w in range(nworkloads):
             ops = [rnd.choice(alpha)[1] for _ in range(rnd.randint(2, 6))]
             base = {"schema": "c07api", "flags": rnd.choice([0, F_COMMENTS]), "ops": ops + [["dump", 1], ["print", 1]]}
             n = self.measure(r, base)
